@@ -548,8 +548,15 @@ def _(p):
         warnings.simplefilter("always")
         ref = spec.get_model_matrix(dtrain)
         n0 = len([x for x in w if issubclass(x.category, DataMismatchWarning)])
+        if p.get("via_subset"):  # the parent spec has met the unseen level before the derived one does
+            model_matrix(p["formula"], dtrain, output=out).model_spec.get_model_matrix(d2)
+        parent_warned = len([x for x in w if issubclass(x.category, DataMismatchWarning)])
         got = spec.get_model_matrix(d2)
-        n1 = len([x for x in w if issubclass(x.category, DataMismatchWarning)])
+        n1 = len([x for x in w if issubclass(x.category, DataMismatchWarning)]) - parent_warned
+        spec.get_model_matrix(d2)
+        n2 = len([x for x in w if issubclass(x.category, DataMismatchWarning)]) - parent_warned
+    if n1 > 0 and n2 <= n1:
+        return f"no-warning-on-repeat: {p['formula']!r}: the second application of the same spec to data with the unseen level of {p['var']} raised no DataMismatchWarning"
     if list(got.model_spec.column_names) != labels0:
         return f"columns-changed: {p['formula']!r}: an unseen level of {p['var']} changed the columns to {list(got.model_spec.column_names)}"
     r, g = _arr(ref), _arr(got)
